@@ -19,6 +19,7 @@ import (
 	"strconv"
 	"strings"
 	"sync"
+	"syscall"
 	"time"
 
 	"verifharness/lib"
@@ -445,6 +446,9 @@ func c19Main(c *lib.Ctx) {
 			c.Count("rows_disabled_total", int64(len(info.disabledRows)))
 			c.Count("fitgen_runs", 4)
 			c.Count("typecheck_millis", info.tcMillis)
+			if info.otherFS {
+				c.Count("runs_with_TMPDIR_on_another_file_system", 1)
+			}
 			c.Count("messages_compared", int64(info.messages))
 			c.Count("fields_compared", int64(info.fields))
 			if cfg.variant == 1 {
@@ -460,6 +464,26 @@ type c19Info struct {
 	disabledRows []int
 	messages     int
 	fields       int
+	otherFS      bool // one run had its TMPDIR on another file system than the output directory
+}
+
+// c19OtherFS returns a fresh directory on a file system other than the one that holds dir
+// (a tmpfs such as /dev/shm or /run/shm), or "" if this host has none that is writable.
+func c19OtherFS(dir string) string {
+	var here syscall.Stat_t
+	if syscall.Stat(dir, &here) != nil {
+		return ""
+	}
+	for _, cand := range []string{"/dev/shm", "/run/shm", "/run/user/" + strconv.Itoa(os.Getuid()), "/var/tmp", "/tmp"} {
+		var st syscall.Stat_t
+		if syscall.Stat(cand, &st) != nil || st.Dev == here.Dev {
+			continue
+		}
+		if td, err := os.MkdirTemp(cand, "verif-c19-"); err == nil {
+			return td
+		}
+	}
+	return ""
 }
 
 // c19Stale fills dir with stale, longer files of the names fitgen is about to write (what the
@@ -670,6 +694,20 @@ func c19Run(repo, fitgen, dir string, cfg c19Config) (string, c19Info) {
 		}
 		if p := []string{"", "3", "1", "7"}[run]; p != "" {
 			cmd.Env = append(os.Environ(), "GOMAXPROCS="+p)
+		}
+		// ... and in where the process's temporary directory is: run 3 has its TMPDIR on another
+		// file system than the output directory (scratch files there cannot be renamed into
+		// place). (A TMPDIR that does not exist was tried and dropped: the stringer step loads
+		// the package through the go tool, which itself needs a temporary directory.)
+		if run == 3 {
+			if td := c19OtherFS(out); td != "" {
+				defer os.RemoveAll(td)
+				if cmd.Env == nil {
+					cmd.Env = os.Environ()
+				}
+				cmd.Env = append(cmd.Env, "TMPDIR="+td)
+				info.otherFS = true
+			}
 		}
 		b, err := cmd.CombinedOutput()
 		if err != nil {
